@@ -96,7 +96,17 @@ def _own_index(index):
     so that changes the caller later makes to them do not reach back-propagation."""
     index = index if isinstance(index, tuple) else (index,)
     return tuple(
-        ind.copy() if isinstance(ind, (np.ndarray, list)) else ind for ind in index
+        (
+            ind.copy()
+            if isinstance(ind, (np.ndarray, list))
+            # a tensor used as an index: keep a copy of its (current) data
+            else (
+                ind.data.copy()
+                if isinstance(getattr(ind, "data", None), np.ndarray)
+                else ind
+            )
+        )
+        for ind in index
     )
 
 
